@@ -1,7 +1,7 @@
 import Gomjml.Core.Resolve
 import Driver.TagP
 /-! driver sub-protocol `res`: Spec winner and the three accessor models for a batch of source tuples.
-    item = `own|c1;c2;…|tag|all|builtin`, every value hex, `-` = not defined; output per item `winner,full,noglobal,raw` (hex) -/
+    item = `own|c1;c2;…|tag|all|builtin`, every value hex, `-` = not defined; output per item `winner,full,noglobal,raw,css-class` (hex; the last: what `GetCSSClass` gives when the attribute is css-class) -/
 open Gomjml.Resolve
 
 namespace Driver.ResP
@@ -13,7 +13,7 @@ def item (s : String) : String :=
   match s.splitOn "|" with
   | [o, cs, t, a, b] =>
     let src : Sources := ⟨(opt o).getD "", (if cs == "" then [] else (cs.splitOn ";").map opt), opt t, opt a, (opt b).getD ""⟩
-    s!"{hexOfString (winner src)},{hexOfString (accFull src)},{hexOfString (accNoGlobal src)},{hexOfString (accRaw src)}"
+    s!"{hexOfString (winner src)},{hexOfString (accFull src)},{hexOfString (accNoGlobal src)},{hexOfString (accRaw src)},{hexOfString (accCssClass src)}"
   | _ => "bad-item"
 
 def handle (args : List String) : String := " ".intercalate (args.map item)
